@@ -40,6 +40,11 @@ func buildPlan(id string, pinned map[string]string, tier string) *Plan {
 				p.Units = append(p.Units, Unit{Pkg: pk, Tags: tags, Groups: []string{"field", "conv"}, Verify: []string{"conv"}})
 			}
 		}
+		for _, pk := range fps {
+			if _, err := os.Stat("/repo/" + strings.TrimPrefix(pk, "./") + "/zz_verif_contracts_bigconv.go"); err == nil {
+				p.Units = append(p.Units, Unit{Pkg: pk, Tags: "", Groups: []string{"field", "conv", "bigconv"}, Verify: []string{"bigconv"}})
+			}
+		}
 		p.Trusted = []string{"pinned moduli in /verif/contracts/params.json", "axiomatic semantics of encoding/binary big/little-endian accessors"}
 		p.NotCovered = []string{"SetBytes / SetBigInt / BigInt / Text / SetString / JSON (math/big, strconv): not under contract", "Vector ReadFrom / AsyncReadFrom / WriteTo / MarshalBinary: not under contract"}
 		p.Note = "Canonical byte decoders accept exactly encodings below q; encoders and decoders are mutually inverse (lemma functions verified from the two contracts); integer setters produce the residue mod q; comparisons act on the regular value."
@@ -157,6 +162,7 @@ func buildPlan(id string, pinned map[string]string, tier string) *Plan {
 		p := &Plan{ID: id}
 		p.Units = append(p.Units, Unit{Pkg: "./field/koalabear/vortex", Tags: "", Groups: []string{"merkle"}})
 		p.Units = append(p.Units, Unit{Pkg: "./accumulator/merkletree", Tags: "", Groups: []string{"verify"}})
+		p.Units = append(p.Units, Unit{Pkg: "./accumulator/merkletree", Tags: "", Groups: []string{"readers"}})
 		p.Trusted = []string{"CompressPoseidon2 is a deterministic function of its arguments (assumed contract)", "i >> n == 0 iff 0 <= i < 2^n (arithmetic fact used to read the index-range clause)",
 			"accumulator: leafSum, nodeSum and bytes.Equal are opaque calls (captured at the call site); elements of the proof set are not modelled; loop-carried digests are fresh allocations"}
 		p.NotCovered = []string{"BuildMerkleTree, MerkleTree.Open: not under contract (nested slices, parallel.Execute)",
@@ -171,6 +177,7 @@ func buildPlan(id string, pinned map[string]string, tier string) *Plan {
 		for _, pk := range poseidonPkgs("/repo") {
 			p.Units = append(p.Units, Unit{Pkg: pk, Tags: "", Groups: []string{"poseidon2"}})
 		}
+		p.Units = append(p.Units, Unit{Pkg: "./hash", Tags: "", Groups: []string{"md"}})
 		p.Trusted = []string{"ring layer over fr.Element (C01 contracts)", "published Poseidon2 matrices for widths 2 and 3 and S-box degree per curve", "documented MiMC instances: exponent and number of rounds per curve (gcv/gen_tower.go mimcParams)",
 			"the round-constant table is a fixed array (its derivation from Keccak is not under contract)"}
 		p.NotCovered = []string{"Poseidon2 permutations and wrappers, ring-SIS, Merkle-Damgard wrapper, hash registry: not under contract",
